@@ -9,17 +9,21 @@ Pool == {<<1>>, <<1, 2>>, <<1, 1, 1>>, <<1, 2, 1, 2>>, <<2, 1>>, <<2, 2, 1>>, <<
 CasesOf(ws, alpha, norms) ==
     LET s == SetToSeq(ws) IN
     { [words |-> s, freqs |-> [k \in 1..Len(s) |-> f[k]], num_merges |-> m, per_line |-> pl, seed |-> 3,
-       threads |-> <<0, 1, 3>>, norm |-> nm, alpha |-> alpha, files |-> 1, max_lines |-> 0, blanks |-> 0] :
+       threads |-> <<0, 1, 3>>, norm |-> nm, alpha |-> alpha, files |-> 1, max_lines |-> 0, blanks |-> 0, bad_utf8 |-> FALSE] :
          f \in [1..Len(s) -> 1..MaxFreqC], m \in 0..MaxMerges, pl \in {1, 2}, nm \in norms }
-SmallPool == {<<1, 2>>, <<3, 2>>, <<1, 1>>, <<4, 2, 4, 2>>}
+\* slot 5 of the nfkc letters is the spacing acute accent: NFKC turns it into a blank and a combining mark
+SmallPool == {<<1, 2>>, <<3, 2>>, <<1, 1>>, <<4, 2, 4, 2>>, <<2, 5, 2>>}
 \* files / max_lines: the corpus spread over several input files, of each of which only the first max_lines lines count
 FileCases == {[c EXCEPT !.files = 2, !.max_lines = ml, !.per_line = 1] :
                  c \in UNION {CasesOf(ws, "abcd", {TRUE}) : ws \in {{<<1, 2>>, <<2, 1>>}, {<<1, 1, 1>>, <<3, 1, 2>>, <<1>>}}}, ml \in {1, 2}}
 \* blanks: that many empty / whitespace-only / CR-only lines in front of every file, and one behind every other line
 BlankCases == {[c EXCEPT !.blanks = bl] :
                  c \in UNION {CasesOf(ws, "abcd", {TRUE}) : ws \in {{<<1, 2>>, <<2, 1>>}, {<<1, 1, 1>>, <<3, 1, 2>>, <<1>>}}}, bl \in {1, 3, 4}}
+\* bad_utf8: a line that is not valid UTF-8 behind the first line of every file
+BadUtf8Cases == {[c EXCEPT !.bad_utf8 = TRUE, !.per_line = 1] :
+                 c \in UNION {CasesOf(ws, "abcd", {TRUE}) : ws \in {{<<1, 2>>, <<2, 1>>}, {<<1, 1, 1>>, <<3, 1, 2>>, <<1>>}}}}
 Cases == UNION {CasesOf(ws, "abcd", {TRUE}) : ws \in {w \in SUBSET Pool : Cardinality(w) \in 1..MaxDistinct}}
-         \cup FileCases \cup BlankCases
+         \cup FileCases \cup BlankCases \cup BadUtf8Cases
          \cup UNION {CasesOf(ws, "nfkc", BOOLEAN) : ws \in {w \in SUBSET SmallPool : Cardinality(w) \in 1..2}}
 VARIABLE x
 Init == x = 0 /\ ndJsonSerialize(IOEnv.OUT, SetToSeq(Cases))
